@@ -106,14 +106,17 @@ func (f *Formatter) formatConditionLines(expr ast.Expression) ([]string, bool, b
 // formatConditionExpression returns a chunked condition string and flags indicating multiline/preserve.
 func (f *Formatter) formatConditionExpression(expr ast.Expression, nest, offset int) (string, bool, bool) {
 	if !f.conf.BreakCompoundConditions {
-		chunk := f.formatExpression(expr).ChunkedString(nest, offset)
-		return chunk, strings.Contains(chunk, "\n"), false
+		buf := f.formatExpression(expr)
+		chunk := buf.ChunkedString(nest, offset)
+		// A line comment at the end of the condition needs a line feed in front of the closing parenthesis
+		return chunk, strings.Contains(chunk, "\n") || buf.endsWithLineComment(), false
 	}
 
 	lines, multiline, preserve := f.formatConditionLines(expr)
 	if !multiline {
-		chunk := f.formatExpression(expr).ChunkedString(nest, offset)
-		return chunk, strings.Contains(chunk, "\n"), false
+		buf := f.formatExpression(expr)
+		chunk := buf.ChunkedString(nest, offset)
+		return chunk, strings.Contains(chunk, "\n") || buf.endsWithLineComment(), false
 	}
 
 	return strings.Join(lines, "\n"), true, preserve
